@@ -340,14 +340,15 @@ class IP(object):
         self.len = IP.IP_HEADER_SIZE + len(self.payload)
         if self.len > 65536:
             logger.warning("IP Payload longer than 65536. Truncating the length field")
+        _frag_units = self.fragment_offset // 8
         header = struct.pack(
             IP.IP_HEADER_FORMAT,
             0x45,
             self.dscp,
             self.len % 65536,
             self.id,
-            self.flags,
-            0,
+            ((self.flags & 0x7) << 5) | ((_frag_units >> 8) & 0x1F),
+            _frag_units & 0xFF,
             self.ttl,
             self.protocol,
             0,
